@@ -44,6 +44,16 @@ CLAIMED.update({
     note='Trusted: shim, z3. batch_reassign/reassign (file I/O, joblib) are outside the claim.',
     ref='DESIGN.md section 8 C10'),
 })
+CLAIMED.update({
+ 'C20': dict(
+    technique='symbolic execution of is_buffered_transition/get_gates/_rotamers (step lemma over real-valued angle and buffer, LRA) and of disorder.transitions (LIA)',
+    text='Step lemma: for every boundary set used by the library and every current state, with angle and buffer width as real solver '
+         'variables, z3 proves exit <=> angle outside the basin widened by the buffer modulo 360; since the loop body depends only on '
+         '(state, angle) this covers sequences of any length; bounded end-to-end runs check the composition, first-frame rule, int16 and '
+         'zero-buffer binning. transitions(): every state sequence within the bound, 1-D and 2-D.',
+    note='Trusted: shim, z3, np.digitize model. Angles exclude the exact gate values as the property states.',
+    ref='DESIGN.md section 8 C20'),
+})
 PENDING = 'check not built yet in this session (work in progress; see DESIGN.md section 8 for the plan)'
 NA = {}
 
